@@ -180,6 +180,7 @@ def run(F, res, tier):
     _c10.same_class_is_a_no_op(F, res, rule="K13")
     _c10.display_is_budgeted(F, res, rule="K15")
     _c10.recursion_follows_nesting_not_length(F, res, rule="K16")
+    _c10.instantiation_shares_what_the_type_shares(F, res, rule="K18")
     from rules import c13 as _c13k
     _c13k.last_text_wins(F, res, rule="K17")   # snapshots taken after a change see its last text
     # never a panic: a query cycle met while salsa validates a memo after a change panics on every later snapshot
